@@ -184,6 +184,29 @@ theorem lowerContrDedup_not_sound :
     (lowerContrDedup "xor" [.var "b", .var "c", .var "b"]).bind (eval I kw) = some 1 := by
   refine ⟨by decide, by decide, by decide, by decide, by decide, by decide⟩
 
+/-! ## mirrored comparisons -/
+
+/-- **The mirror table is sound** on a linear order: swapping the operands and mirroring the op is the
+    identity, for all six comparison ops and all values — ties included. -/
+theorem mirror_sound (op : Cmp) (a b : Int) : op.mirror.eval b a = op.eval a b := by
+  cases op <;> simp only [Cmp.mirror, Cmp.eval, decide_eq_decide] <;> omega
+
+theorem mirror_involutive (op : Cmp) : op.mirror.mirror = op := by
+  cases op <;> rfl
+
+/-- **Witness for seeded defect C18_11**: with `ge ↦ lt` the canonicalised `c >= e` is wrong exactly at ties. -/
+theorem mirrorSlip_wrong_at_ties (a : Int) : Cmp.ge.mirrorSlip.eval a a ≠ Cmp.ge.eval a a := by
+  simp [Cmp.mirrorSlip, Cmp.eval]
+
+/-- …and only there: away from ties (and for the other five ops everywhere) the slipped table agrees, which
+    is why continuous random data cannot see it. -/
+theorem mirrorSlip_right_off_ties (op : Cmp) (a b : Int) (h : op ≠ .ge ∨ a ≠ b) :
+    op.mirrorSlip.eval b a = op.eval a b := by
+  cases op <;> simp only [Cmp.mirrorSlip, Cmp.mirror, Cmp.eval, decide_eq_decide] <;> try omega
+  rcases h with h | h
+  · exact absurd rfl h
+  · omega
+
 /-- **Witness for seeded defect C18_3.**  With ops uninterpreted, cancelling an op against its registered
     inverse is not sound: here `abs` is registered as the inverse of `abs` (a partial inverse, like
     tanh/atanh or exp/log outside the principal domain) and the cancelled term evaluates to -1, the
